@@ -141,6 +141,19 @@ func (r *InboundRequestSingleFlight) FinishOk(req *InflightRequest, data []byte)
 	verifPoint("sfi.fin.closed", req.ID, 0)
 }
 
+// FinishAbandoned removes the in-flight entry without publishing a result or an error.
+// Followers that are waiting for it start over (see GetOrCreate).
+// It is used when the leader's own context was cancelled: whatever the leader rendered
+// is a consequence of its client going away and must not be handed to other clients.
+func (r *InboundRequestSingleFlight) FinishAbandoned(req *InflightRequest) {
+	if req == nil {
+		return
+	}
+	shard := r.shardFor(req.ID)
+	shard.m.Delete(req.ID)
+	close(req.Done)
+}
+
 func (r *InboundRequestSingleFlight) FinishErr(req *InflightRequest, err error) {
 	if req == nil {
 		return
